@@ -911,7 +911,20 @@ def ops_desc(ops):
     return {"ops": [list(o[:2]) + [list(x) if isinstance(x, tuple) else x for x in o[2:]] for o in ops]}
 
 
-def iso_eval(ops, plats_factory, probe=True):
+PRISTINE = {}
+
+
+def restore_globals():
+    """put the module-level definitions back (in place) after a history that changed them, so that later cases and the
+    shrinker start from the real definitions again"""
+    for p, m in core_modules().items():
+        privs, fwc = PRISTINE[p]
+        m.PRIVS.clear()
+        m.PRIVS.update(copy.deepcopy(privs))
+        m.FAILED_WHEN_CONTAINS[:] = list(fwc)
+
+
+def iso_eval(ops, plats_factory, probe=True, share=True):
     """run one history on the real objects and evaluate isolation after every step (never consults the model).
     returns dict(viols=[(kind, what, details)], slots, plats, ok)"""
     plats = plats_factory()
@@ -942,7 +955,7 @@ def iso_eval(ops, plats_factory, probe=True):
                     viols.append(("not-pristine", "a freshly constructed connection does not start from the platform definition",
                                   {"failed_at_step": n, "got": repr(got)[:300], "want": repr(want)[:300]}))
             # no mutable object is shared between two owners; when one is, mutate through it to exhibit the visible change
-            if not viols:
+            if not viols and share:
                 owners = {**def_ids(plats), **{f"conn{j}": owned_ids(c) for j, c in slots.items()}}
                 for a, b in itertools.combinations(sorted(owners), 2):
                     if owners[a] & owners[b]:
@@ -950,7 +963,8 @@ def iso_eval(ops, plats_factory, probe=True):
                             j = int((a if a.startswith("conn") else b)[4:])
                             lv = next(iter(getattr(slots[j], "privilege_levels", {}) or {"exec": 0}))
                             ext = list(ops[:n + 1]) + [("e", j, lv, "^probe$", "probe"), ("fa", j, "probe"), ("t", j)]
-                            r = iso_eval(ext, plats_factory, probe=False)
+                            restore_globals()
+                            r = iso_eval(ext, plats_factory, probe=False, share=False)
                             if r["viols"]:
                                 return {**r, "ops": ext}
                         viols.append(("shared-object", f"{a} and {b} share a mutable object", {"failed_at_step": n, "owners": [a, b]}))
@@ -959,6 +973,8 @@ def iso_eval(ops, plats_factory, probe=True):
             if viols:
                 break
         g_last = global_snap(plats)
+    if viols:
+        restore_globals()
     return {"viols": viols, "slots": slots, "plats": plats, "g": g_last, "ops": list(ops)}
 
 
@@ -969,7 +985,7 @@ def shrink_iso(ops, kind, plats_factory, budget=60):
         trial = cur[:i] + cur[i + 1:]
         budget -= 1
         try:
-            if any(k == kind for k, _, _ in iso_eval(trial, plats_factory, probe=False)["viols"]):
+            if any(k == kind for k, _, _ in iso_eval(trial, plats_factory, probe=False, share=(kind == "shared-object"))["viols"]):
                 cur = trial
         except Exception:
             pass
@@ -989,7 +1005,7 @@ def iso_history(ck, ops, plats_factory, lines, pending, matcher, probe=True):
     if r["viols"]:
         if not ck.violations:
             small = shrink_iso(r["ops"], r["viols"][0][0], plats_factory)
-            r2 = iso_eval(small, plats_factory, probe=False)
+            r2 = iso_eval(small, plats_factory, probe=False, share=(r["viols"][0][0] == "shared-object"))
             if r2["viols"]:
                 r = r2
         for kind, what, more in r["viols"]:
@@ -1129,6 +1145,8 @@ def setup_live():
         except Exception:
             pass
     REAL_COMMUNITY = tuple(real)
+    for p, m in core_modules().items():
+        PRISTINE[p] = (copy.deepcopy(m.PRIVS), list(m.FAILED_WHEN_CONTAINS))
 
 
 def gen_factory_cases(ck, tier, tmpfile):
